@@ -16,7 +16,7 @@ os.environ.setdefault('VERIF_SCRATCH', '/var/tmp')
 
 FAMILY = {
     'C01': 'proto', 'C04': 'proto', 'C07': 'proto', 'C08': 'proto', 'C10': 'proto', 'C11': 'proto', 'C17': 'proto', 'C20': 'proto', 'C06': 'proto',
-    'C02': 'incr', 'C03': 'incr', 'C05': 'incr', 'C12': 'incr', 'C13': 'incr', 'C18': 'incr',
+    'C02': 'incr', 'C03': 'incr', 'C05': 'incr', 'C12': 'clean', 'C13': 'resolve', 'C18': 'incr',
     'C09': 'resolve', 'C14': 'resolve', 'C19': 'resolve',
     'C15': 'leaf', 'C16': 'leaf',
 }
